@@ -4,6 +4,7 @@ import (
 	"context"
 	"errors"
 	"fmt"
+	"strings"
 
 	"github.com/theory/sqljson/path"
 	"github.com/theory/sqljson/path/exec"
@@ -21,7 +22,7 @@ func init() {
 			"a case is non-trivial when K >= 2; distinct by (path, doc, entry, silent, cause, k)",
 		Run:          runC20,
 		Replay:       func(c *h.Ctx, cs h.Case) { replayC20(c, cs) },
-		MinExercised: map[string]int64{"outcome": 2000, "further-steps": 2000, "done-before-call": 100},
+		MinExercised: map[string]int64{"outcome": 2000, "between-polls": 5000, "further-steps": 2000, "done-before-call": 100},
 		Assumptions: []string{
 			"cancellation is injected through a context.Context whose Done/Err flip is driven by the H1 step hook (logical clock), never by wall time",
 			"bound on further evaluation steps after the flip: number of nodes of the path + 2 (independent of document size)",
@@ -71,6 +72,21 @@ var c20Pool = []pd{
 	{`$.a ? (@ == 1 || @ == 2 || @ == 3)`, `{"a":[1,2,3,4]}`}, {`$.* ? (@.size() > 1)`, `{"a":[1,2],"b":[1]}`}, {`$.**{0 to 2} ? (@.type() == "number")`, `{"a":{"b":1},"c":2}`},
 }
 
+func init() {
+	// long operand sequences: thousands of item pairs compared after the last
+	// poll of the operands (no pair is equal, so nothing short-circuits)
+	var a, b []string
+	for i := 0; i < 40; i++ {
+		a = append(a, fmt.Sprint(i))
+		b = append(b, fmt.Sprint(100+i))
+	}
+	big := fmt.Sprintf(`{"a":[%s],"b":[%s],"t":["12:00:00","13:00:00"],"z":"12:00:00+01"}`, strings.Join(a, ","), strings.Join(b, ","))
+	for _, p := range []string{`$.a[*] == $.b[*]`, `$ ? (@.a[*] == @.b[*])`, `($.a[*] > $.b[*]) is unknown`, `strict $.a[*] == $.b[*]`, `$.a[*] == $.b[*] || $.a[0] == 0`,
+		`$.t[*].time() < $.z.time_tz()`, `$.a[*] ? (@ == $.b[*])`} {
+		c20Pool = append(c20Pool, struct{ p, d string }{p, big})
+	}
+}
+
 type c20Combo struct {
 	entry  string
 	silent bool
@@ -88,10 +104,16 @@ func causeName(e error) string {
 func checkCancelPoints(c *h.Ctx, p *path.Path, nodes int, ptxt, dtxt string, useNum bool, combo c20Combo) {
 	doc := h.Decode(dtxt, useNum)
 	opts := h.Opts{Vars: h.DecodeVars(c20Vars, useNum), Silent: combo.silent, TZ: true}
+	zone := ""
+	if (len(ptxt)+len(dtxt))%2 == 0 {
+		// a non-UTC zone in the context (the datetime casts read it)
+		zone = []string{"America/New_York", "+05:30"}[len(ptxt)%2]
+		opts.Zone = h.ParseZone(zone)
+	}
 	base := h.Call(combo.entry, p, doc, opts)
 	c.Eval(1)
 	K := base.Steps
-	cs := h.Case{Kind: "cancel", Path: ptxt, Doc: dtxt, UseNum: useNum, Vars: c20Vars, Silent: combo.silent, TZ: true, Entry: combo.entry,
+	cs := h.Case{Kind: "cancel", Path: ptxt, Doc: dtxt, UseNum: useNum, Vars: c20Vars, Silent: combo.silent, TZ: true, Zone: zone, Entry: combo.entry,
 		Extra: map[string]string{"cause": causeName(combo.cause)}}
 	if base.Class == h.Panic {
 		c.Skip("outcome", "baseline-panics")
@@ -154,6 +176,46 @@ func checkCancelPoints(c *h.Ctx, p *path.Path, nodes int, ptxt, dtxt string, use
 			}
 		}
 	}
+	if base.Polls <= 64 || len(ptxt)%4 == 0 {
+		checkBetweenPolls(c, p, func() any { return h.Decode(dtxt, useNum) }, opts, combo, min(base.Polls, 400), cs)
+	}
+}
+
+// checkBetweenPolls: the context becomes done right after its n-th poll (as a
+// timer or another goroutine would make it), for every n. Whatever notices it
+// - the next poll or any other look at the context - must report it as an
+// error wrapping ErrExecution and the context's error; a normal outcome is
+// acceptable only if no poll saw the context done.
+func checkBetweenPolls(c *h.Ctx, p *path.Path, doc func() any, opts h.Opts, combo c20Combo, polls int, cs h.Case) {
+	for n := 1; n <= polls; n++ {
+		m := &h.CallMon{CancelAt: -1, CancelAfterPoll: n, Cause: combo.cause}
+		o := h.CallMonitored(combo.entry, p, doc(), opts, m)
+		c.Eval(1)
+		cs.Extra = map[string]string{"cause": causeName(combo.cause), "after-poll": fmt.Sprint(n), "polls": fmt.Sprint(polls)}
+		feat := h.F("entry", combo.entry, "silent", fmt.Sprint(combo.silent), "mode", modeOf(p))
+		hasResult := len(o.Items) > 0 || o.Val != nil || o.Bool
+		switch {
+		case o.Class == h.Panic:
+			c.Skip("between-polls", "panic-is-C05")
+		case o.Err == nil && m.PollsAfter > 0:
+			feat["kind"] = "normal-outcome"
+			c.Violate("between-polls", feat, fmt.Sprintf("the context became done after poll %d/%d, %d later polls saw it, but %s returned %s with a nil error", n, polls, m.PollsAfter, combo.entry, o.Summary()), cs)
+		case o.Err == nil:
+			c.Held("between-polls") // completed without looking at the context again
+		case o.Class == h.Null && m.PollsAfter == 0 && !errors.Is(o.Err, combo.cause):
+			c.Held("between-polls") // the NULL of an unaffected run
+		case !errors.Is(o.Err, combo.cause) && m.PollsAfter == 0:
+			c.Held("between-polls") // an ordinary error of an unaffected run
+		case !errors.Is(o.Err, exec.ErrExecution) || !errors.Is(o.Err, combo.cause) || errors.Is(o.Err, exec.ErrVerbose):
+			feat["kind"] = "not-wrapping"
+			c.Violate("between-polls", feat, fmt.Sprintf("the context became done after poll %d/%d: error %q does not wrap ErrExecution and %v (or is suppressible)", n, polls, o.Err, combo.cause), cs)
+		case hasResult:
+			feat["kind"] = "items-with-error"
+			c.Violate("between-polls", feat, fmt.Sprintf("the context became done after poll %d/%d: result %s returned together with the error", n, polls, o.Summary()), cs)
+		default:
+			c.Held("between-polls")
+		}
+	}
 }
 
 func modeOf(p *path.Path) string {
@@ -169,6 +231,7 @@ func replayC20(c *h.Ctx, cs h.Case) {
 		c.Note("replay: path no longer parses: " + cs.Path)
 		return
 	}
+	h.RequireMonitoredCtx = true
 	cause := context.Canceled
 	if cs.Extra["cause"] == "deadline" {
 		cause = context.DeadlineExceeded
@@ -178,6 +241,7 @@ func replayC20(c *h.Ctx, cs h.Case) {
 }
 
 func runC20(c *h.Ctx) {
+	h.RequireMonitoredCtx = true
 	var combos []c20Combo
 	for _, e := range h.Entries {
 		for _, s := range []bool{false, true} {
